@@ -13,8 +13,10 @@ def make(spec):
     rnd = random.Random(spec['seed'])
     n = spec['n']
     nt = spec['ntypes']
-    els = ['C', 'N', 'O', 'Zr'][:nt]
-    masses = [12.0107, 14.0067, 15.9994, 91.224][:nt]
+    ELS = ['C', 'N', 'O', 'Zr', 'H', 'F', 'S', 'Cl', 'Cu', 'Zn', 'Br', 'P']
+    MASSES = [12.0107, 14.0067, 15.9994, 91.224, 1.00794, 18.9984032, 32.065, 35.453, 63.546, 65.38, 79.904, 30.973762]
+    els = ELS[:nt]
+    masses = MASSES[:nt]
     atom_types = [rnd.randrange(nt) for _ in range(n)]
     if n >= nt:
         atom_types[:nt] = range(nt)
@@ -45,6 +47,9 @@ def make(spec):
             kw[kind + '_types'][0] = ntk - 1
             if coeffs and not (kind in spec.get('no_table', ())):
                 kw[kind + '_type_coeffs'] = ["%s/style %d.25 %d -1%s" % (kind, i + 1, i, "   # %s%d x" % (kind[0], i) if coeffs == 'comment' else "") for i in range(ntk)]
+        elif coeffs and kind in spec.get('table_without_terms', ()):
+            # a coefficient table whose kind currently has no terms (e.g. all bonds were deleted): the table is still part of the structure
+            kw[kind + '_type_coeffs'] = ["%s/style %d.25 %d -1%s" % (kind, i + 1, i, "   # %s%d x" % (kind[0], i) if coeffs == 'comment' else "") for i in range(spec['termtypes'].get(kind, 1))]
     with quiet():
         return Atoms(**kw)
 
@@ -205,3 +210,18 @@ def run(rec, tier, seed):
                     rec.case(repr(sorted(spec.items(), key=str)), sample=spec if len(rec.samples) < 2 else None)
                     if msg:
                         rec.fail('lmpdat', 'lmpdat', "%s on %r" % (msg, spec), spec, 'C13/lmpdat')
+    # more than nine types in a section (ids 10, 11, ... sort differently as text), and coefficient tables of kinds that have no terms
+    for si, style in enumerate(('full', 'atomic')):
+        for coeffs in (True, 'comment'):
+            spec = dict(n=12, ntypes=12, cell='ortho' if si else 'tilted', terms=dict(bond=12, angle=3), termtypes=dict(bond=11, angle=2, dihedral=1, improper=1), coeffs=coeffs, style=style,
+                        seed=seed * 1000 + 900 + si, dispatch=False, no_table=[])
+            msg = check(spec)
+            rec.case(repr(sorted(spec.items(), key=str)), group='many-types')
+            if msg:
+                rec.fail('lmpdat', 'lmpdat', "%s on %r" % (msg, spec), spec, 'C13/lmpdat')
+            spec = dict(n=4, ntypes=2, cell='ortho', terms=dict(bond=2), termtypes=dict(bond=2, angle=3, dihedral=2, improper=1), coeffs=coeffs, style=style,
+                        seed=seed * 1000 + 920 + si, dispatch=False, no_table=[], table_without_terms=['angle', 'dihedral', 'improper'])
+            msg = check(spec)
+            rec.case(repr(sorted(spec.items(), key=str)), group='table-without-terms')
+            if msg:
+                rec.fail('lmpdat', 'lmpdat', "%s on %r" % (msg, spec), spec, 'C13/lmpdat')
